@@ -112,7 +112,36 @@ def contracts():
     # every trapped error reaches the handler whatever ends the line (Matcher.matches), and every exception below an expression is trapped (Expression.matches)
     from . import core, control
     extra = core.select(core.contracts(), ("Matcher.matches",))
-    return error_contracts() + extra + control.expression_matches() + control.interfaces()
+    from . import C18
+    return error_contracts() + extra + control.expression_matches() + control.interfaces() + clear_errors_contracts() + C18.build_contract()
+
+
+def clear_errors_contracts():
+    """Matcher.clear_errors is an [A] interface for Matcher.matches; here its body is under contract: every expression is asked to hand over its
+    trapped errors, whatever state the run is in"""
+    from . import core
+    cf = core.CF
+    cf.setdefault("Expression", {}).update({"g_handle_errors_calls": "int"})
+    n = "len(self.expressions)"
+    cnt = lambda k: f"self.expressions[{k}][0].g_handle_errors_calls"
+    return [
+        Contract(target="csvpath/matching/productions/expression.py::Expression.handle_errors_if", interface=True, types={},
+                 modifies=["self.g_handle_errors_calls"], ensures={"counted": "self.g_handle_errors_calls == old(self.g_handle_errors_calls) + 1"},
+                 returns="none", class_fields=cf,
+                 assumptions=["Expression.handle_errors_if() hands each error the expression trapped on this line to ErrorHandler.handle_error (whose _handle_if is under contract) and empties the queue"]),
+        Contract(target="csvpath/matching/matcher.py::Matcher.clear_errors", variant="body",
+                 types={"self.expressions": "pairlist[Expression]", "self.csvpath": "obj:CsvPath"},
+                 modifies=["self.expressions[*].g_handle_errors_calls", "self.expressions"],
+                 ensures={"every_expression_hands_over_its_errors": f"forall_int(0, {n}, lambda k: {cnt('k')} == old({cnt('k')}) + 1)"},
+                 invariants={0: [f"forall_int(0, _i0, lambda k: {cnt('k')} == old({cnt('k')}) + 1)",
+                                 f"forall_int(lambda k: implies(k >= _i0, {cnt('k')} == old({cnt('k')})))"]},
+                 loop_havoc={0: ["self.expressions[*].g_handle_errors_calls"]},
+                 covers={"also_when_the_run_has_been_stopped_on_this_line": f"self.csvpath.stopped and {n} == 2 and {cnt(1)} == old({cnt(1)}) + 1"},
+                 class_fields=cf, macros=MACROS, returns="none",
+                 native={"defaults": core.NATIVE_CORE["defaults"],
+                         "patches": {"csvpath.matching.productions.expression.Expression.handle_errors_if": "def patch(self):\n    self.g_handle_errors_calls += 1\n"}},
+                 property_clauses={"every_expression_hands_over_its_errors": "C05"},
+                 doc={"every_expression_hands_over_its_errors": "C05: 'When a match component raises ... exactly the configured error policy decides' -- no trapped error is dropped because of the state of the run"})]
 
 
 
